@@ -54,7 +54,7 @@ var Configs = []regen.Config{
 }
 
 func DrawSpec(t *rapid.T) SpecCase {
-	tf := rapid.SampledFrom([]string{"date-time", "date-time", "date", "time"}).Draw(t, "timeformat")
+	tf := rapid.SampledFrom([]string{"date-time", "date-time", "date-time", "date", "date", "time", "time", "unix", "unix-seconds", "unix-milli", "unix-micro", "unix-nano"}).Draw(t, "timeformat")
 	eo := specgen.ExchangeOptions{Formats: rapid.IntRange(0, 2).Draw(t, "formats") == 0, TimeFormat: tf}
 	doc := specgen.GenExchangeDoc(t, eo)
 	return SpecCase{Meta: Meta{Doc: doc, TimeFormat: tf}, Config: Configs[rapid.IntRange(0, len(Configs)-1).Draw(t, "config")]}
